@@ -563,13 +563,13 @@ def camera_recipes(ctx):
         return int(round(float(R[2] @ np.array(p, dtype=float)) + c[2][2]))
 
     def points(cs, n, pow2):
-        pts = []
-        while len(pts) < n:
-            p = [rng.randint(-6, 6) for _ in range(3)]
-            zs = [cam_depth(c, p) for c in cs]
-            if all(z != 0 and (not pow2 or abs(z) in (1, 2, 4, 8)) for z in zs):
-                pts.append(p)
-        return pts
+        # all admissible points of the 13^3 box (a set of cameras may admit none: then None, and the caller redraws the cameras)
+        box = [[a, b, c] for a in range(-6, 7) for b in range(-6, 7) for c in range(-6, 7)]
+        ok = [p for p in box
+              if all(z != 0 and (not pow2 or abs(z) in (1, 2, 4, 8)) for z in (cam_depth(c, p) for c in cs))]
+        if not ok:
+            return None
+        return [list(rng.choice(ok)) for _ in range(n)]
 
     def cam(pow2, ext):
         K = red(k4(pow2))
@@ -581,9 +581,13 @@ def camera_recipes(ctx):
     for i in range(n_single):
         dtype = "float32" if i % 3 == 0 else "float64"
         pow2 = dtype == "float32"
-        c = cam(pow2, ext=i % 4 != 0)
         n = rng.randint(1, 6)
-        out.append({"fn": "project", "cams": [c], "P": points([c], n, pow2),
+        while True:
+            c = cam(pow2, ext=i % 4 != 0)
+            P1 = points([c], n, pow2)
+            if P1 is not None:
+                break
+        out.append({"fn": "project", "cams": [c], "P": P1,
                     "d": [[rng.choice((0, 0, 1, -1, 2, -3)), rng.choice((0, 0, 1, -1, -2, 3))] for _ in range(n)],
                     "dtype": dtype, "maxden": 16 if pow2 else 256, "cls": "single"})
     for i in range(12 if ctx.quick else 60):
@@ -593,11 +597,16 @@ def camera_recipes(ctx):
         if i % 4 == 3:
             n = B                                   # batch size equal to the number of points
         ext = i % 2 == 0
-        cs = [cam(pow2, ext) for _ in range(B)]
-        if i % 3 == 1:
-            P = [points([c], n, pow2) for c in cs]  # B x N x 3
-        else:
-            P = points(cs, n, pow2)                 # shared N x 3, broadcast over cameras
+        while True:
+            cs = [cam(pow2, ext) for _ in range(B)]
+            if i % 3 == 1:
+                P = [points([c], n, pow2) for c in cs]  # B x N x 3
+                if all(x is not None for x in P):
+                    break
+            else:
+                P = points(cs, n, pow2)                 # shared N x 3, broadcast over cameras
+                if P is not None:
+                    break
         out.append({"fn": "project", "cams": cs, "P": P, "force_batch": True,
                     "d": [[rng.choice((0, 1, -2)), rng.choice((0, -1, 3))] for _ in range(n)],
                     "dtype": dtype, "maxden": 16 if pow2 else 256, "cls": "batched_intrinsics"})
